@@ -233,7 +233,7 @@ pub fn check(s: &'static dyn Proto, c: &Case, st: &mut Stats, _k: &KnownFindings
 
 pub const BUDGET: Budget = Budget {
     quick: (12, 8, 4),
-    thorough: (6, 3, 2),
+    thorough: (10, 5, 3),
     shrink: 6,
 };
 
